@@ -80,7 +80,7 @@ func (in *Interp) initStubs2() {
 		if !(sec.op == OpConst && sec.val == 0) {
 			panic(in.unsupported("time.Unix with non-zero seconds"))
 		}
-		return in.timeVal(tb.Bin(OpAdd, in.intTerm(a[1]), tb.Const(1<<41, 64))), stDone
+		return in.timeVal(in.intTerm(a[1])), stDone
 	}
 }
 
